@@ -16,6 +16,7 @@ import (
 	"verifharness/props/c12"
 	"verifharness/props/c13"
 	"verifharness/props/c14"
+	"verifharness/props/c15"
 	"verifharness/props/c16"
 	"verifharness/props/c17"
 	"verifharness/props/c18"
@@ -42,6 +43,7 @@ import (
 )
 
 var checks = map[string]driver.Check{
+	"C15": {Level: "exploration", Fn: c15.Run},
 	"C27": {Level: "exploration", Fn: c27.Run},
 	"C20": {Level: "exploration", Fn: c20.Run},
 	"C09": {Level: "fault_enumeration", Fn: c09.Run},
